@@ -2,11 +2,12 @@ package eng
 
 import (
 	"fmt"
-	"time"
 	"go/token"
 	"go/types"
 	"math/big"
+	"strconv"
 	"strings"
+	"time"
 
 	"golang.org/x/tools/go/ssa"
 
@@ -188,6 +189,20 @@ func (e *Engine) VerifyFunc(fn *ssa.Function, blk *Block, props []string) (err e
 				}
 			}
 			ob.Hints = hints
+			if blk != nil {
+				// "instconsts N": the small constants 1..N are instantiation candidates
+				// for the obligations of this function (fixed-layout byte buffers:
+				// hypotheses about p[k] are needed at k = 5, 6, 7, ...)
+				if ic := blk.Of("instconsts"); len(ic) > 0 {
+					if n, err := strconv.Atoi(strings.TrimSpace(ic[0].Text)); err == nil && n > 0 && n <= 64 {
+						hs := append([]*Term{}, hints...)
+						for i := 1; i <= n; i++ {
+							hs = append(hs, e.C.IntC(int64(i)))
+						}
+						ob.Hints = hs
+					}
+				}
+			}
 			ob.ModelTerms = wTerms
 			ob.ModelNames = wNames
 			if blk != nil {
@@ -268,6 +283,30 @@ func (e *Engine) VerifyFunc(fn *ssa.Function, blk *Block, props []string) (err e
 			if cl.Label == "" || cl.Label == e.CheckProp {
 				focusCls = append(focusCls, cl)
 			}
+		}
+	}
+	if blk != nil && e.CheckProp != "" {
+		// "onlyfor [Cxx] <substr>, ...": the matching obligations belong to property
+		// Cxx alone; they are not generated while another property that also lists
+		// this function is being checked (Read's value-level clauses are C06's, its
+		// framing and memory clauses C04's)
+		for _, cl := range blk.Of("onlyfor") {
+			if cl.Label == "" || cl.Label == e.CheckProp {
+				continue
+			}
+			kept := e.Obls[:start:start]
+			for _, ob := range e.Obls[start:] {
+				drop := false
+				for _, it := range splitTop(cl.Text, ',') {
+					if it = trim(it); it != "" && strings.Contains(ob.Name, it) {
+						drop = true
+					}
+				}
+				if !drop {
+					kept = append(kept, ob)
+				}
+			}
+			e.Obls = kept
 		}
 	}
 	if len(focusCls) > 0 {
@@ -506,12 +545,12 @@ func shortHeapKey(k string) string {
 
 type frameTarget struct {
 	keyPrefix string
-	so      *Sort // sort of the heap array of key
-	key     string
-	ref     *Term
-	arr     *Term
-	off, ln *Term
-	row     bool
+	so        *Sort // sort of the heap array of key
+	key       string
+	ref       *Term
+	arr       *Term
+	off, ln   *Term
+	row       bool
 }
 
 // frameTargets translates one modifies item into heap targets.
